@@ -43,10 +43,10 @@ class TiledStridedLayoutAttr(MemRefLayoutAttr, Data[TiledStridedLayout]):
         printer.print_string(f"<{self.data}>")
 
     def get_affine_map(self) -> AffineMap:
-        if self.data.is_dynamic():
+        if self.data.is_dynamic() or self.data.offset is None:
             raise NotImplementedError("Dynamic case is not implemented yet!")
 
-        result = AffineConstantExpr(0)
+        result = AffineConstantExpr(self.data.offset)
         for dim in range(self.data.dimension()):
             max_depth = self.data.tstrides[dim].depth()
             for depth in range(max_depth):
